@@ -276,4 +276,183 @@ Section Float.
         * rewrite Efull. unfold u53 in *. lra.
   Qed.
 
+  (* ---- one call (WriteSample or GeneratePadding) *)
+  Lemma cost_nonneg : forall rate x, ok31 rate x -> 0 <= cost rate x.
+  Proof.
+    intros rate x (Hd & H31). unfold cost, nt_full, nt in *.
+    assert (H : (0 <= s_dur x * Z.of_N rate * (1 + Z.of_N (s_dropped x)))%Z) by nia.
+    pose proof (ticksQ_nonneg _ H). unfold u53. lra.
+  Qed.
+
+  Lemma float_step_op : forall rate ts0 (s : st g_arith) acc err o,
+    Jf ts0 (st_rem g_arith s) (st_ts g_arith s) (ticksQ acc) err -> ok31 rate (as_sample o) ->
+    (exists r1, Jf ts0 r1 (sample_ts g_arith rate s (as_sample o))
+                   (ticksQ (acc + nt rate (as_sample o) * Z.of_N (s_dropped (as_sample o))))
+                   (err + cost rate (as_sample o))) /\
+    Jf ts0 (st_rem g_arith (fst (step g_arith rate s o)))
+           (st_ts g_arith (fst (step g_arith rate s o)))
+           (ticksQ (acc + nt_full rate (as_sample o))) (err + cost rate (as_sample o)).
+  Proof.
+    intros rate ts0 s acc err [x|n] HJ Hok; cbn [step as_sample] in *; [exact (float_step rate ts0 s acc err x HJ Hok)|].
+    pose proof (cost_nonneg _ _ Hok) as Hc.
+    unfold sample_ts, nt_full, nt, gen_padding in *. cbn [s_dur s_dropped N.ltb N.compare] in *.
+    destruct (emit (N.to_nat n) (st_seq g_arith s) (st_ts g_arith s)) as [q2 pk2]. cbn [fst st_rem st_ts].
+    rewrite !Z.mul_0_l, !Z.add_0_r.
+    split; [exists (st_rem g_arith s)|]; apply (Jf_weaken _ _ _ _ _ _ _ HJ); try reflexivity; lra.
+  Qed.
+
+  (* ---- from the invariant to "within one tick" *)
+  Lemma Jf_close : forall ts0 r ts a err,
+    Jf ts0 r ts (ticksQ a) err -> (0 <= a)%Z -> err <= 3 # 4 ->
+    within_one ts (Z.to_N ((Z.of_N ts0 + a / giga) mod 4294967296)%Z).
+  Proof.
+    intros ts0 r ts a err (T & HT & Hts & Hr0 & Hr1 & Hlo & Hhi) Ha He.
+    pose proof (Z.div_mod a giga ltac:(discriminate)) as Hdm.
+    pose proof (Z.mod_pos_bound a giga ltac:(reflexivity)) as Hm.
+    set (F := (a / giga)%Z) in *. set (m := (a mod giga)%Z) in *.
+    assert (EA : ticksQ a == inject_Z F + inject_Z m / qgiga).
+    { unfold ticksQ. rewrite Hdm, inject_Z_plus, inject_Z_mult. unfold qgiga. field. discriminate. }
+    assert (Hm0 : 0 <= inject_Z m / qgiga) by (apply (ticksQ_nonneg m); lia).
+    assert (Hm1 : inject_Z m / qgiga <= 1).
+    { unfold qgiga, giga in *. destruct Hm as [_ Hm]. apply Z.lt_le_incl in Hm. rewrite Zle_Qle in Hm.
+      change (inject_Z 1000000000) with 1000000000 in *.
+      setoid_replace (inject_Z m / 1000000000) with (inject_Z m * (1 # 1000000000)) by field. lra. }
+    rewrite EA in Hlo, Hhi. unfold u53 in *.
+    assert (H1 : (-2 < T - F)%Z).
+    { rewrite Zlt_Qlt. unfold Zminus. rewrite inject_Z_plus, inject_Z_opp. change (inject_Z (-2)) with (-2). lra. }
+    assert (H2 : (T - F < 2)%Z).
+    { rewrite Zlt_Qlt. unfold Zminus. rewrite inject_Z_plus, inject_Z_opp. change (inject_Z 2) with 2. lra. }
+    assert (HF : (0 <= F)%Z) by (subst F; apply Z.div_pos; [lia|reflexivity]).
+    clear - H1 H2 Hts HT HF. unfold within_one, u32.
+    assert (Hc : (T = F \/ T = F + 1 \/ F = T + 1)%Z) by lia.
+    pose proof (Z.mod_pos_bound (Z.of_N ts0 + F) 4294967296 ltac:(reflexivity)) as HbF.
+    destruct Hc as [->| [-> | ->]].
+    - left. lia.
+    - right; left. apply N2Z.inj. rewrite Hts, N2Z.inj_mod, N2Z.inj_add, Z2N.id by lia.
+      change (Z.of_N 4294967296) with 4294967296%Z. change (Z.of_N 1) with 1%Z.
+      rewrite Z.add_mod_idemp_l by discriminate. f_equal. lia.
+    - right; right. apply N2Z.inj. rewrite N2Z.inj_mod, N2Z.inj_add, Hts, Z2N.id by lia.
+      change (Z.of_N 4294967296) with 4294967296%Z. change (Z.of_N 1) with 1%Z.
+      rewrite Z.add_mod_idemp_l by discriminate. f_equal. lia.
+  Qed.
+
+  (* ---- histories *)
+  Fixpoint total_cost (rate : N) (os : list op) : Q :=
+    match os with [] => 0 | o :: t => cost rate (as_sample o) + total_cost rate t end.
+
+  Lemma total_cost_nonneg : forall rate os, Forall (fun o => ok31 rate (as_sample o)) os -> 0 <= total_cost rate os.
+  Proof.
+    intros rate os H. induction H as [|o t Ho Ht IH]; cbn [total_cost]; [lra|].
+    pose proof (cost_nonneg _ _ Ho). lra.
+  Qed.
+
+  Lemma float_from : forall rate ts0 os (s : st g_arith) acc err k pk p,
+    Jf ts0 (st_rem g_arith s) (st_ts g_arith s) (ticksQ acc) err -> (0 <= acc)%Z ->
+    Forall (fun o => ok31 rate (as_sample o)) os ->
+    err + total_cost rate os <= 3 # 4 ->
+    nth_error (run g_arith rate s os) k = Some pk -> In p pk ->
+    within_one (k_ts p)
+      (Z.to_N ((Z.of_N ts0 + (acc + nt_before rate (map as_sample os) k) / giga) mod 4294967296)%Z).
+  Proof.
+    intros rate ts0. induction os as [|o t IH]; intros s acc err k pk p HJ Hacc Hok Hbud Hk Hp; [destruct k; discriminate|].
+    inversion Hok as [|? ? Ho Ht]; subst. cbn [total_cost] in Hbud.
+    pose proof (total_cost_nonneg _ _ Ht) as Htc. pose proof (cost_nonneg _ _ Ho) as Hc.
+    destruct (float_step_op rate ts0 s acc err o HJ Ho) as [[r1 HJ1] HJ'].
+    assert (Hnt : (0 <= nt rate (as_sample o))%Z) by (destruct Ho as [Hd _]; unfold nt; nia).
+    cbn [run] in Hk. pose proof (step_pkts g_arith rate s o) as Hw.
+    destruct (step g_arith rate s o) as [s' pk0]. cbn [fst] in HJ'.
+    destruct k as [|k]; cbn [nth_error] in Hk.
+    - injection Hk as <-. destruct Hw as (_ & _ & Hpk).
+      apply In_nth_error in Hp. destruct Hp as [j Hj]. destruct (Hpk j p Hj) as [-> _].
+      unfold nt_before. cbn [map firstn fold_right nth_error]. rewrite Z.add_0_l.
+      apply (Jf_close _ _ _ _ _ HJ1); [nia|lra].
+    - assert (Hacc' : (0 <= acc + nt_full rate (as_sample o))%Z) by (unfold nt_full; nia).
+      pose proof (IH s' _ _ k pk p HJ' Hacc' Ht ltac:(lra) Hk Hp) as H.
+      unfold nt_before in *. cbn [map firstn fold_right nth_error].
+      match goal with H : within_one _ (Z.to_N ((_ + ?e1 / _) mod _)) |- within_one _ (Z.to_N ((_ + ?e2 / _) mod _)) =>
+        replace e2 with e1 by lia end.
+      exact H.
+  Qed.
+
+  Lemma init_Jf : forall ts0 seq0, Jf ts0 (st_rem g_arith (init g_arith ts0 seq0)) (st_ts g_arith (init g_arith ts0 seq0)) (ticksQ 0) 0.
+  Proof.
+    intros ts0 seq0. exists 0%Z. cbn [init st_rem st_ts g_arith r_zero]. unfold u32, u53, ticksQ.
+    split; [lia|split]; [rewrite N2Z.inj_mod, Z.add_0_r; reflexivity|].
+    change (inject_Z 0) with 0. setoid_replace (0 / qgiga) with 0 by (unfold qgiga; field; discriminate).
+    repeat split; lra.
+  Qed.
+
 End Float.
+
+(* ------------------------------------------------ the binary64 instance *)
+Lemma float_arith_is : float_arith = g_arith rnd64.
+Proof. reflexivity. Qed.
+
+Definition total_nt (rate : N) (os : list op) : Z :=
+  fold_right Z.add 0%Z (map (fun o => nt_full rate (as_sample o)) os).
+
+Lemma total_cost_val : forall rate os,
+  total_cost rate os == 12 * u53 * ticksQ (total_nt rate os) + 6 * u53 * inject_Z (Z.of_nat (length os)).
+Proof.
+  intros rate os. induction os as [|o t IH].
+  - unfold total_nt, ticksQ. cbn. unfold qgiga. field. discriminate.
+  - cbn [total_cost]. rewrite IH. unfold total_nt. cbn [map fold_right length]. fold (total_nt rate t).
+    rewrite ticksQ_plus, Nat2Z.inj_succ. unfold Z.succ. rewrite inject_Z_plus. unfold cost.
+    change (inject_Z 1) with 1. ring.
+Qed.
+
+(* bounds under which the float64 computation is guaranteed to stay within one
+   tick: every call below 2^31 ticks (gap included), the whole history below
+   2^48 ticks and 2^48 calls *)
+Definition op_ok31 (rate : N) (o : op) : Prop := ok31 rate (as_sample o).
+Definition hist_ok (rate : N) (os : list op) : Prop :=
+  Forall (op_ok31 rate) os /\
+  (total_nt rate os <= 281474976710656 * giga)%Z /\ (Z.of_nat (length os) <= 281474976710656)%Z.
+
+Lemma float_within_one_tick : forall rate ts0 seq0 os k pk p,
+  hist_ok rate os ->
+  nth_error (run float_arith rate (init float_arith ts0 seq0) os) k = Some pk -> In p pk ->
+  within_one (k_ts p) (ideal_ts rate ts0 (map as_sample os) k).
+Proof.
+  intros rate ts0 seq0 os k pk p (Hok & Htot & Hlen) Hk Hp.
+  rewrite float_arith_is in Hk. unfold ideal_ts.
+  pose proof (float_from rnd64 rnd64_rel_nonneg rnd64_int_exact rate ts0 os _ 0%Z 0 k pk p
+                (init_Jf rnd64 ts0 seq0) ltac:(lia) Hok) as H.
+  rewrite Z.add_0_l in H. apply H; [|exact Hk|exact Hp].
+  rewrite total_cost_val.
+  assert (H1 : ticksQ (total_nt rate os) <= 281474976710656).
+  { unfold ticksQ, qgiga, giga in *. rewrite Zle_Qle in Htot. rewrite inject_Z_mult in Htot.
+    change (inject_Z 281474976710656) with 281474976710656 in Htot. change (inject_Z 1000000000) with 1000000000 in *.
+    setoid_replace (inject_Z (total_nt rate os) / 1000000000) with (inject_Z (total_nt rate os) * (1 # 1000000000)) by field.
+    lra. }
+  rewrite Zle_Qle in Hlen. change (inject_Z 281474976710656) with 281474976710656 in Hlen.
+  unfold u53. lra.
+Qed.
+
+Lemma op_ok31_ok : forall rate o, op_ok31 rate o -> op_ok rate o.
+Proof.
+  intros rate o (Hd & H31). split; [exact Hd|]. unfold giga in *. lia.
+Qed.
+
+(* float64 run against the exact run, packet by packet *)
+Lemma float_vs_exact : forall rate ts0 seq0 os k pkf pke pf pe,
+  (ts0 < 4294967296)%N -> hist_ok rate os ->
+  nth_error (run float_arith rate (init float_arith ts0 seq0) os) k = Some pkf -> In pf pkf ->
+  nth_error (run exact_arith rate (init exact_arith ts0 seq0) os) k = Some pke -> In pe pke ->
+  within_one (k_ts pf) (k_ts pe).
+Proof.
+  intros rate ts0 seq0 os k pkf pke pf pe Hts Hh Hkf Hpf Hke Hpe.
+  assert (Hok : Forall (op_ok rate) os).
+  { destruct Hh as (Hok & _). eapply Forall_impl; [|exact Hok]. intros o. apply op_ok31_ok. }
+  rewrite (no_drift rate ts0 seq0 os k pke pe Hts Hok Hke Hpe).
+  exact (float_within_one_tick rate ts0 seq0 os k pkf pf Hh Hkf Hpf).
+Qed.
+
+(* the bounds are satisfiable on a non-trivial history: 30 fps at 90 kHz with a
+   dropped-packet report and a padding burst *)
+Lemma ex_hist_ok :
+  hist_ok 90000 [OSample (mkSample 33333333 0 2); OPad 3; OSample (mkSample 33333333 2 1); OSample (mkSample 33333333 0 1)].
+Proof.
+  unfold hist_ok, op_ok31, ok31, total_nt, nt_full, nt, giga. cbn [as_sample s_dur s_dropped map fold_right length].
+  split; [|split; lia]. repeat constructor; cbn; lia.
+Qed.
